@@ -299,6 +299,9 @@ def run_check(pid, jobs, tier, meta):
                     n_known += 1
                     out_lines.append('KNOWN-FINDING: property=%s %s [job=%s: %s] (native replay: %s)' % (pid, k.get('what', k.get('id')), j.name, v.get('msg'), verdict))
                     continue
+                if verdict in ('not-reproduced', 'assume-failed') and 'uninitialised' in (v.get('msg') or ''):
+                    # reads of uninitialised memory are invisible to ASan/UBSan (MSan needs an instrumented libstdc++): reported on the engine's evidence
+                    verdict = 'not-observable-natively (uninitialised read)'
                 if verdict in ('not-reproduced', 'assume-failed'):
                     n_mismatch += 1
                     rp = os.path.join(replay_dir, '%s-%s-%d.json' % (pid, re.sub(r'\W+', '_', j.name), idx)); json.dump(rec, open(rp, 'w'), indent=1)
